@@ -1347,7 +1347,7 @@ func (u *Unit) bitLiteral(t string) {
 	}
 	var cs []string
 	for i := 0; i < 64; i++ {
-		b := app("bit", t, strconv.Itoa(i))
+		b := bitApp(t, strconv.Itoa(i))
 		if v&(1<<uint(i)) == 0 {
 			b = sNot(b)
 		}
